@@ -158,7 +158,7 @@ fn history(seed: u64, steps: usize) -> Vec<Case> {
     let mut evs: Vec<Ev> = vec![];
     // abstract state for the oracle: per record None / auth / cached(expiry interval in µs)
     #[derive(Clone, Copy, PartialEq)]
-    enum St { No, Auth, Cached(u128, u128) }
+    enum St { No, Auth, Cached(u128, u128, u128, u128) }
     let mut st = [St::No; 3];
     let mut out = vec![];
     for step in 0..steps {
@@ -178,7 +178,10 @@ fn history(seed: u64, steps: usize) -> Vec<Case> {
                     let t1 = Instant::now();
                     evs.push(Ev { line: format!("C {{}} {}", text::rr(&rr)), lo: ms(t0), hi: ms(t1) });
                     let eff = if flush { 1 } else { ttl } as u128 * 1_000_000;
-                    if st[i] != St::Auth { st[i] = St::Cached(ms(t0) + eff, ms(t1) + eff); }
+                    let effs = if flush { 1 } else { ttl } as u128;
+                    // ExpirationInfo::new: refresh at half the lifetime below a minute, else at 80 %
+                    let off = (if effs < 60 { effs / 2 } else { effs / 10 * 8 }) * 1_000_000;
+                    if st[i] != St::Auth { st[i] = St::Cached(ms(t0) + eff, ms(t1) + eff, ms(t0) + off, ms(t1) + off); }
                 }
                 6 => { mgr.add_authoritative_resource(recs[i].clone()); evs.push(Ev { line: format!("A {}", text::rr(&recs[i])), lo: 0, hi: 0 }); st[i] = St::Auth; }
                 7 | 8 => { mgr.remove_resource_record(&recs[i]); evs.push(Ev { line: format!("R {}", text::rr(&recs[i])), lo: 0, hi: 0 }); st[i] = St::No; }
@@ -226,7 +229,7 @@ fn history(seed: u64, steps: usize) -> Vec<Case> {
                 let verdict: Option<bool> = match st[i] {
                     St::No => Some(false),
                     St::Auth => Some(auth && in_scope),
-                    St::Cached(lo, hi) => if !cached || !in_scope { Some(false) } else if lo > q_hi { Some(true) } else if hi <= q_lo { Some(false) } else { None },
+                    St::Cached(lo, hi, _, _) => if !cached || !in_scope { Some(false) } else if lo > q_hi { Some(true) } else if hi <= q_lo { Some(false) } else { None },
                 };
                 match verdict {
                     Some(w) if w != present => {
@@ -241,6 +244,42 @@ fn history(seed: u64, steps: usize) -> Vec<Case> {
                     _ => {}
                 }
             }
+            out.push(c);
+        }
+        // the refresh clock: `get_next_refresh` is the earliest refresh time already in the past among
+        // the cached entries of all names (expired ones included), and nothing for authoritative ones
+        {
+            let t0 = Instant::now();
+            let nr = mgr.get_next_refresh();
+            let t1 = Instant::now();
+            let (q_lo, q_hi) = (ms(t0), ms(t1));
+            let mk = |add_hi: bool, q: u128| {
+                let mut s = String::from("mdns");
+                for e in &evs {
+                    if e.line.contains("{}") {
+                        let t = if add_hi { (e.hi + 999) / 1000 } else { e.lo / 1000 };
+                        s.push(' '); s.push_str(&e.line.replacen("{}", &t.to_string(), 1));
+                    } else { s.push(' '); s.push_str(&e.line); }
+                }
+                s.push_str(&format!(" NC {}", q));
+                s
+            };
+            let mut c = Case::new(mk(false, (q_hi + 999) / 1000), if nr.is_some() { "some" } else { "none" }.to_string()).tag("next-refresh").tag("query");
+            c.alt = Some(mk(true, q_lo / 1000));
+            let due_sure: Vec<(u128, u128)> = st.iter().filter_map(|x| match x { St::Cached(_, _, rl, rh) if *rh < q_lo => Some((*rl, *rh)), _ => None }).collect();
+            let due_maybe = st.iter().any(|x| matches!(x, St::Cached(_, _, rl, rh) if *rl < q_hi && *rh >= q_lo));
+            match nr {
+                None => { if !due_sure.is_empty() { c = c.fail("refresh-missed", "a cached record is past its refresh time but get_next_refresh returns None".into()); } }
+                Some(x) => {
+                    let xm = ms(x);
+                    if xm > q_hi { c = c.fail("refresh-in-future", "get_next_refresh returned an instant that is not in the past".into()); }
+                    let from_entry = st.iter().any(|s| matches!(s, St::Cached(_, _, rl, rh) if *rl <= xm && xm <= *rh));
+                    if !from_entry { c = c.fail("refresh-time", format!("get_next_refresh returned {} us, which is not the refresh time of any cached record", xm)); }
+                    if due_sure.iter().any(|(_, rh)| *rh < xm) && !due_maybe { c = c.fail("refresh-not-earliest", "an earlier due refresh time exists".into()); }
+                    if due_sure.is_empty() && !due_maybe { c = c.fail("refresh-unexpected", "no cached record is due".into()); }
+                }
+            }
+            if due_maybe { c = c.tag("oracle-inconclusive"); }
             out.push(c);
         }
     }
